@@ -5,7 +5,7 @@ import os
 from .common import (EXIT_DEADLOCK, EXIT_INVARIANT, EXIT_STEP_BUDGET, Plan, STRATEGIES, assemble,
                      check_sim_health, rm_rf, rng_for, scratch_dir, sim_link)
 
-KINDS = ["undef", "dup", "overflow", "mixed", "warn", "undef", "assert", "dup"]
+KINDS = ["undef", "dup", "overflow", "mixed", "warn", "dupmany", "assert", "undefmany"]
 
 
 def gen_class(rng, workdir, index):
@@ -22,6 +22,24 @@ def gen_class(rng, workdir, index):
     for o in range(nobj):
         rt.append(f"\tcall ok{o}")
     where = rng.sample(range(nobj), min(k, nobj))
+    if kind in ("dupmany", "undefmany"):
+        # Many errors of one kind: exposes caps/truncation applied in arrival order.
+        n = rng.randint(20, 70)
+        for j in range(n):
+            if kind == "dupmany":
+                a, b = rng.sample(range(nobj), 2)
+                for o in (a, b):
+                    srcs[o].append(f'\t.section .text.dm{j},"ax",@progbits')
+                    srcs[o].append(f"\t.globl dupm_{j:04d}")
+                    srcs[o].append(f"dupm_{j:04d}:\tret")
+                rt.append(f"\tcall dupm_{j:04d}")
+            else:
+                o = rng.randrange(nobj)
+                srcs[o].append(f'\t.section .text.um{j},"ax",@progbits')
+                srcs[o].append(f"\t.globl usrm{j}")
+                srcs[o].append(f"usrm{j}:\tcall undefm_{j:04d}")
+                srcs[o].append("\tret")
+                rt.append(f"\tcall usrm{j}")
     if kind in ("undef", "mixed", "warn"):
         for j, o in enumerate(where):
             srcs[o].append(f'\t.section .text.u{j},"ax",@progbits')
